@@ -30,11 +30,17 @@ func ruleC16(c *Check, p *Prog) {
 	c.Explanation = "Decides the consistency relations between P, Q and Pass that are visible in the code's shape: R-QP-CHI for the chi-square tests (block frequency, poker bit/byte, overlapping x2, runs distribution, longest run, rank, cumulative sums, approximate entropy, linear complexity) the Q result is the same value as the P result on every return; " +
 		"R-PQ-NORMAL for the two-sided tests (monobit bit/byte, runs, binary derivative, autocorrelation, Maurer, DFT) P = erfc(|v|) and Q = erfc(v)/2 over the SAME v, whence P = 2 min(Q, 1-Q) identically; " +
 		"R-PASS in each of the 15 registry runners Pass is (P >= Alpha) on the value stored in P (min(P,P2) for the overlapping test), Alpha = 0.01. " +
+		"R-PRECOND none of the explicit input-validation panics of the 17 test entry points fires for a length >= the standard's minimum (and the test's own) with the documented parameters (a test that refuses an admissible sequence returns nothing). " +
 		"R-FINITE-GUARDS the finiteness guards of igamc (clamp, underflow cut, qk != 0, rescaling of the continued-fraction state) are present. " +
 		"NOT decided: finiteness, absence of NaN and the range [0,1] in general (runtime values: 0/0 in the runs test for constant input, logs of counts, differences of near-equal sums)."
 	c.Floor("R-QP-CHI", 10)
 	c.Floor("R-PQ-NORMAL", 7)
 	c.Floor("R-PASS", 15)
+	c.Floor("R-PRECOND", 17)
+	// "every test RETURNS ...": none of the input-validation panics fires on an admissible length / documented parameter
+	for _, pr := range []string{"C01", "C02", "C03", "C04", "C05"} {
+		checkPreconds(c, p, pr)
+	}
 	for _, name := range chiFuncs {
 		fn := p.Func(pkgRoot, name)
 		if fn == nil {
@@ -199,6 +205,10 @@ func checkBlockLocal(c *Check, p *Prog, name string, permutable bool) {
 	x := NewExt(p, NewStore(), numConfig(fn))
 	sum := x.Summarize(fn, nil, nil)
 	S := x.S
+	// a block loop written over the running offset (stride = block length, known positive) is a counted loop too
+	posLoad = func(t *Term) bool { return positiveTableLoad(p, nil, t) }
+	markMonotoneCounters(S, sum)
+	posLoad = nil
 	where := p.Pos(fn.Pos())
 	if len(sum.Undecided) > 0 {
 		c.Undecided("R-BLOCK-LOCAL", name, where, "%s", strings.Join(sum.Undecided, "; "))
@@ -402,6 +412,7 @@ func checkRotation(c *Check, p *Prog, name string) {
 	x := NewExt(p, NewStore(), numConfig(fn))
 	sum := x.Summarize(fn, nil, nil)
 	S := x.S
+	closeWrapCounters(S, sum) // a hand-wrapped running position is (start + k) mod n
 	where := p.Pos(fn.Pos())
 	in := sum.Params[0]
 	n := S.Op("len", TInt, in)
